@@ -33,13 +33,16 @@ structure MInv (w : World) : Prop where
   actRl : ∀ b, (w.act (.rl b)).isSome → w.lock = some b
   actInst : ∀ j, (w.act (.inst j)).isSome → cs (w.inst j).st = .wait
   actExt : w.act .ext = none
-  runLive : ∀ p l, runOf w p = some l → ∀ i ∈ l, i ∈ w.stack
+  runLive : ∀ p l, runOf w p = some l → ∀ i ∈ l, i ∈ w.stack ∧ (w.inst i).exec = p
+  tookWait : ∀ i, (w.inst i).took.isSome → cs (w.inst i).st = .wait
+  fresh : ∀ j, w.ni ≤ j → cs (w.inst j).st = .fin ∧ w.act (.inst j) = none ∧ (w.inst j).took = none
 
 /-- what the invariant reads of a world -/
 def SameView (w w' : World) : Prop :=
   (∀ b, (w'.bus b).parallel = (w.bus b).parallel) ∧
   (∀ i, cs (w'.inst i).st = cs (w.inst i).st) ∧ (∀ i, (w'.inst i).exec = (w.inst i).exec) ∧
-  (∀ p, runOf w' p = runOf w p) ∧ w'.lock = w.lock ∧ w'.stack = w.stack
+  (∀ p, runOf w' p = runOf w p) ∧ w'.lock = w.lock ∧ w'.stack = w.stack ∧
+  (∀ i, (w'.inst i).took.isSome → (w.inst i).took.isSome) ∧ w'.ni = w.ni
 
 theorem chain_congr (w w' : World) (hexec : ∀ i, (w'.inst i).exec = (w.inst i).exec)
     (hcs : ∀ i, cs (w'.inst i).st = cs (w.inst i).st) (hrun : ∀ p, runOf w' p = runOf w p) (hlock : w'.lock = w.lock) :
@@ -56,13 +59,32 @@ theorem chain_congr (w w' : World) (hexec : ∀ i, (w'.inst i).exec = (w.inst i)
       intro ⟨h1, h2, h3, h4⟩
       exact ⟨by rw [hexec]; exact h1, by rw [hrun]; exact h2, by rw [hcs]; exact h3, ih h4⟩
 
+/-- the chain over `l` reads executors of all of `l`, coarse states and inline activations only below the top -/
+theorem chain_congr_tail (w w' : World) (hrl : ∀ b, runOf w' (.rl b) = runOf w (.rl b)) (hlock : w'.lock = w.lock) :
+    ∀ l, (∀ x ∈ l, (w'.inst x).exec = (w.inst x).exec) →
+      (∀ x ∈ l.tail, cs (w'.inst x).st = cs (w.inst x).st ∧ runOf w' (.inst x) = runOf w (.inst x)) →
+      Chain w l → Chain w' l := by
+  intro l
+  induction l with
+  | nil => intro _ _ _; trivial
+  | cons i t ih =>
+    cases t with
+    | nil =>
+      intro he _ ⟨b, h1, h2, h3⟩
+      exact ⟨b, by rw [he i (by simp)]; exact h1, by rw [hlock]; exact h2, by rw [hrl]; exact h3⟩
+    | cons j rest =>
+      intro he ht ⟨h1, h2, h3, h4⟩
+      have hj := ht j (by simp)
+      refine ⟨by rw [he i (by simp)]; exact h1, by rw [hj.2]; exact h2, by rw [hj.1]; exact h3, ?_⟩
+      exact ih (fun x hx => he x (by simp [hx])) (fun x hx => ht x (by simp at hx ⊢; exact Or.inr hx)) h4
+
 theorem isSome_of_runOf (w w' : World) (p : Proc) (h : runOf w' p = runOf w p) : (w'.act p).isSome = (w.act p).isSome := by
   unfold runOf at h
   cases h1 : w'.act p <;> cases h2 : w.act p <;> simp [h1, h2] at h ⊢
 
 theorem minv_of_sameView (w w' : World) (hv : SameView w w') (h : MInv w) : MInv w' := by
-  obtain ⟨hpar, hcs, hexec, hrun, hlock, hstack⟩ := hv
-  refine ⟨?_, ?_, ?_, ?_, ?_, ?_, ?_, ?_⟩
+  obtain ⟨hpar, hcs, hexec, hrun, hlock, hstack, htook, hni⟩ := hv
+  refine ⟨?_, ?_, ?_, ?_, ?_, ?_, ?_, ?_, ?_, ?_⟩
   · intro b; rw [hpar]; exact h.serial b
   · intro i; rw [hstack, hcs]; exact h.mem i
   · rw [hstack]; exact h.nodup
@@ -72,7 +94,18 @@ theorem minv_of_sameView (w w' : World) (hv : SameView w w') (h : MInv w) : MInv
   · have := isSome_of_runOf w w' .ext (hrun _)
     rw [h.actExt] at this
     cases hx : w'.act .ext <;> simp [hx] at this ⊢
-  · intro p l hl i hi; rw [hstack]; rw [hrun] at hl; exact h.runLive p l hl i hi
+  · intro p l hl i hi; rw [hstack, hexec]; rw [hrun] at hl; exact h.runLive p l hl i hi
+  · intro i hi; rw [hcs]; exact h.tookWait i (htook i hi)
+  · intro j hj
+    rw [hni] at hj
+    obtain ⟨f1, f2, f3⟩ := h.fresh j hj
+    refine ⟨by rw [hcs]; exact f1, ?_, ?_⟩
+    · have := isSome_of_runOf w w' (.inst j) (hrun _)
+      rw [f2] at this
+      cases hx : w'.act (.inst j) <;> simp [hx] at this ⊢
+    · have := htook j
+      rw [f3] at this
+      cases hx : (w'.inst j).took <;> simp [hx] at this ⊢
 
 /-- the outermost live instance is run by the lock-holding run loop -/
 theorem chain_bottom (w : World) : ∀ l, l ≠ [] → Chain w l →
